@@ -141,6 +141,11 @@ def ensure_facts(repo=None, verbose=True):
             "KV_NONCE": nonce,
         })
         env.pop("RUSTUP_TOOLCHAIN", None)
+        scratch = bool(os.environ.get("KV_CACHE"))
+        if scratch:
+            # scratch copies (tools/mutant.py): keep them small
+            env["CARGO_INCREMENTAL"] = "0"
+            shutil.rmtree(os.path.join(target, "debug", "incremental"), ignore_errors=True)
         if verbose:
             print(f"[facts] extracting facts for tree {th} (cargo +nightly check with kvfacts)...",
                   file=sys.stderr, flush=True)
@@ -165,7 +170,7 @@ def ensure_facts(repo=None, verbose=True):
             f.write(json.dumps({"nonce": nonce, "tree": th, "wall_s": round(time.time() - t0, 1)}))
         # keep the cache small: retain the 4 most recent fact sets
         sets = sorted(glob.glob(os.path.join(CACHE, "facts", "*")), key=os.path.getmtime)
-        for old in sets[:-4]:
+        for old in sets[:(-1 if scratch else -4)]:
             shutil.rmtree(old, ignore_errors=True)
         if verbose:
             print(f"[facts] done in {time.time() - t0:.0f}s", file=sys.stderr, flush=True)
